@@ -105,7 +105,6 @@ Definition check_1311 (fs : list field) : verdict :=
     | None => VSkip
     | Some m =>
       if negb (bytes_eqb (encode_msg m) b) then VSkip else          (* unknown fields / non-canonical wire form *)
-      if overrun m then VSkip else                                  (* C08 finding 805: p2j's list / map loops run past the enclosing message; such messages are outside this check (the harness avoids them, this selector is the authority) *)
       let m0 := m_drop_negzero m in
       match model_rt Sc root m0 with
       | None => VSkip                                               (* no JSON image, or the j2p spec leaves its reading open *)
